@@ -234,7 +234,11 @@ def run(tier, seed):
             scenario(ck, trial, tier, ra, rn)
         except Exception:
             import traceback
-            ck.disagree('scenario %d crashed: %s' % (trial, traceback.format_exc()[-600:]), {'trial': trial})
+            tb = traceback.format_exc()
+            if 'could not mine a block' in tb:
+                ck.count('generator-gave-up(difficulty)')
+                continue
+            ck.disagree('scenario %d crashed: %s' % (trial, tb[-600:]), {'trial': trial})
     if r.ok and (ra or rn):
         outs = model.run_batch([x[0] for x in ra])
         for (req, want, rp), o in zip(ra, outs):
